@@ -5,6 +5,7 @@ package loader
 // Contracts for the verification machinery in /verif (comment-only; see /verif/DESIGN.md).
 
 //@ func (*writingReader).Read
+//@   modifies w.wo, old(w.wo).size, wn(old(w.wo).w), pos(w.r)
 //@   check the_first_read_emits_the_section_once [C15]: old(w.wo) != nil ==> w.wo == nil || err != nil
 //@   requires buffered [C15]: typeis(w.r, "*bytes.Buffer")
 //@   let vbytes := call[varint.ToUvarint#0]
@@ -16,6 +17,7 @@ package loader
 //@   check written_once [C15]: old(w.wo) == nil ==> w.wo == nil
 
 //@ func (*countingReader).Read
+//@   modifies c.c.totalRead, pos(c.r)
 //@   check counts_bytes_delivered [C15]: c.c.totalRead == wrap_u64(old(c.c.totalRead) + result0)
 
 //@ func TeeingLinkSystem
